@@ -59,6 +59,7 @@ var transTargets = []transTarget{
 	{"TransImport", "chainimport", "", "targetHeightToImportSourceIndex", "targetHeightToImportSourceIndex"},
 	{"TransImport", "chainimport", "headersImport", "determineDivergenceSyncModes", "determineDivergenceSyncModes"},
 	{"TransImport", "chainimport", "headersImport", "determineProcessingRegions", "determineProcessingRegions"},
+	{"TransImport", "chainimport", "headersImport", "validateChainContinuity", "validateChainContinuity"},
 	{"TransQuery", "", "ChainService", "prepareCFiltersQuery", "prepareCFiltersQuery"},
 	{"TransStore", "headerfs", "", "readHeadersFromFile", "readHeadersFromFile"},
 	{"TransStore", "headerfs", "blockHeaderStore", "FetchHeaderAncestors", "blockHeaderStore_FetchHeaderAncestors"},
